@@ -35,22 +35,31 @@ def check_one(case, res):
     loads = profile_of(case)
     ref = LG.monthly_reference(loads)
     annual_net = sum(r["rej_kwh"] - r["ext_kwh"] for r in ref)
-    for n_months in case["horizons"]:
+    sm0 = case.get("start", 1)  # SimulationParameters.start_month (reachable through the GHE / design classes)
+    handed = loads
+    if case.get("as_array"):
+        import numpy as np
+
+        handed = np.array(loads, dtype=float)  # the caller's own float array, used for every build of this case
+    builds = [(n, rep) for n in case["horizons"] for rep in range(2 if case.get("as_array") else 1)]
+    for n_sim, rep in builds:
+        n_months = sm0 - 1 + n_sim  # the tool's end_month
         res["evals"] += 1
-        c1 = dict(case, horizons=[n_months])
+        c1 = dict(case, horizons=[n_sim])
         try:
-            hl = hybrid.make_hybrid(loads, n_months)
+            hl = hybrid.make_hybrid(handed, n_sim, start_month=sm0) if case.get("as_array") else hybrid.make_hybrid(loads, n_sim, start_month=sm0)
         except Exception as e:  # noqa: BLE001
             res["violations"].append(core.viol("hybrid_load_raised", c1, msg=f"HybridLoad raised {type(e).__name__}: {e}", exc=type(e).__name__))
             continue
         ends = LG.month_end_hours(n_months)
         try:
-            en, _pos = hybrid.month_energies(hl, n_months, ends)
+            en_, _pos = hybrid.month_energies(hl, n_months, ends, first=sm0 - 1)
         except LookupError as e:
             res["violations"].append(core.viol("no_month_end_breakpoint", c1, msg=f"no breakpoint at the end of simulated month {e.args[0]} (hour {ends[e.args[0] - 1]})", month=((e.args[0] - 1) % 12) + 1))
             continue
+        en = [0.0] * (sm0 - 1) + list(en_)  # indexed by month counted from the start of the first year
         worst = None
-        for m in range(n_months):
+        for m in range(sm0 - 1, n_months):
             r = ref[m % 12]
             want = r["rej_kwh"] - r["ext_kwh"]
             tol = 1e-6 * max(1.0, abs(want), r["peak_rej"], r["peak_ext"], r["rej_kwh"], r["ext_kwh"])
@@ -66,11 +75,12 @@ def check_one(case, res):
                 msg=f"simulated month {m + 1} (calendar month {(m % 12) + 1}, {direction}, peak days rej/ext {r['day_rej']}/{r['day_ext']}): "
                     f"hybrid sequence integrates to {got:.6f} kWh, hourly input sums to {want:.6f} kWh",
                 direction=direction, same_day=same_day, first_day_heating_peak=(direction == "heating_only" and r["day_ext"] == 0),
+                build=rep + 1, start_month=sm0,
                 start_clamped=bool(m == 0 and ((r["peak_rej"] > 0 and r["day_rej"] == 0 and 13 - float(hl.monthly_peak_cl_duration[1]) / 2 < 0)
                                                or (r["peak_ext"] > 0 and r["day_ext"] == 0 and 13 - float(hl.monthly_peak_hl_duration[1]) / 2 < 0))),
                 sim_month_1=(m == 0)))
         total = sum(en)
-        want_total = sum((ref[m % 12]["rej_kwh"] - ref[m % 12]["ext_kwh"]) for m in range(n_months))
+        want_total = sum((ref[m % 12]["rej_kwh"] - ref[m % 12]["ext_kwh"]) for m in range(sm0 - 1, n_months))
         if worst is None and abs(total - want_total) > 1e-6 * max(1.0, abs(want_total), abs(annual_net)):
             res["violations"].append(core.viol("total_energy_not_conserved", c1, observed=total, expected=want_total, msg=f"horizon total {total} vs {want_total}"))
         dirs = {("b" if r["peak_rej"] > 0 and r["peak_ext"] > 0 else "c" if r["peak_rej"] > 0 else "h" if r["peak_ext"] > 0 else "n") for r in ref}
@@ -207,6 +217,14 @@ def main(run: core.Run, only=None):
     ys = [{"profile": "patterns", "patterns": [A[i]] * 12, "years_sequence": seq, "horizons": [12, 25]} for i in (8, 45, 100) for seq in ([2019, 2020, 2019], [2020, 2019], [2021, 2024])]
     ys += [{"profile": "office", "years_sequence": [2019, 2020, 2019], "horizons": [12, 37]}]
     run.drive(ys, family="year-sequences")
+    # simulations that start later in the year and run past December; loads handed over as the caller's own float array and used twice
+    quick = run.tier == "quick"
+    sel = (8, 45, 100) if quick else range(1, len(A), 11)
+    st = [{"profile": "patterns", "patterns": [A[i]] * 12, "horizons": [12, 30], "start": sm} for i in sel for sm in (4, 10)]
+    st += [{"profile": "office", "horizons": [9, 36], "start": sm} for sm in (2, 4, 12)]
+    run.drive(st, family="start-month")
+    ar = [{"profile": "patterns", "patterns": [A[i]] * 12, "horizons": [12, 25], "as_array": True} for i in sel] + [{"profile": "office", "horizons": [24], "as_array": True}]
+    run.drive(ar, family="caller-array-used-twice")
     return run.finish(
         rule="profiles built from month patterns (direction x peak day {first,2nd,15th,last-1,last} x shape {1 h, 6 h, 30 h} x base "
              "{0, 20 %}); P0 = same pattern every month (whole alphabet), P1 = one deviating month in {Jan,Feb,Jun,Dec} over the "
